@@ -33,6 +33,7 @@ const (
 	chOnt    = uint64(14)
 	chBtc    = uint64(15)
 	chMsc    = uint64(16)
+	chEth    = uint64(17) // ETH router with real ethash verification
 )
 
 // ctx = one corpus transaction: what it is and whether it must succeed.
@@ -43,8 +44,9 @@ type ctx struct {
 }
 
 type step struct {
-	name  string
-	build func() []ctx
+	name      string
+	build     func() []ctx
+	expensive bool // one execution costs tens of seconds: reduced set of history variants in the quick tier
 }
 
 type corpus struct {
@@ -128,7 +130,7 @@ func (c *corpus) steps() []step {
 	})))
 
 	var st []step
-	add := func(name string, f func() []ctx) { st = append(st, step{name, f}) }
+	add := func(name string, f func() []ctx) { st = append(st, step{name: name, build: f}) }
 
 	add("requests", func() []ctx {
 		return []ctx{
@@ -142,6 +144,7 @@ func (c *corpus) steps() []step {
 			regSC(chOnt, utils.ONT_ROUTER, "ont", []byte{1}, nil),
 			regSC(chBtc, utils.BTC_ROUTER, "btc-regtest", ccm.LE64(uint64(utils.TyRegtest)), nil),
 			regSC(chMsc, utils.MSC_ROUTER, "msc", []byte{0xcc, 16}, c.msc.extraInfo()),
+			regSC(chEth, utils.ETH_ROUTER, "ropsten", make([]byte, 20), nil),
 			ok(one(SVM, neo3_state_manager.REGISTER_STATE_VALIDATOR, gov.SVList(svs, svApp.Addr), svApp), "neo3_state_manager.registerStateValidator"),
 		}
 	})
@@ -151,7 +154,7 @@ func (c *corpus) steps() []step {
 		add(fmt.Sprintf("approval round 1 by validator %d", k), func() []ctx {
 			v := vals[k]
 			out := []ctx{apprCand(c1, v), apprCand(c2, v)}
-			for _, id := range []uint64{chVote, chDest, chRipple, chTmp, chOnt, chBtc, chMsc} {
+			for _, id := range []uint64{chVote, chDest, chRipple, chTmp, chOnt, chBtc, chMsc, chEth} {
 				out = append(out, scApprove(side_chain_manager.APPROVE_REGISTER_SIDE_CHAIN, id, v, true))
 			}
 			out = append(out,
@@ -266,6 +269,8 @@ func (c *corpus) steps() []step {
 	})
 	// ---- msc (clique) light client: 3 signers, checkpoint trust root, two sealed headers
 	st = append(st, c.msc.steps(c)...)
+	// ---- ETH: real proof-of-work header (ethash cache handling)
+	st = append(st, ethSteps(c)...)
 	// ---- BTC: 3-of-4 vault, deposit BTC -> vote chain, withdrawal vote chain -> BTC, three MultiSign transactions
 	st = append(st, c.btc.steps(c, vote)...)
 	// ---- consensus epoch changes last (they change the validator set the approvals above count against)
